@@ -331,3 +331,50 @@ func ZZVerifC11Seq() {
 	}
 	nd.Reach("C11/seq-end")
 }
+
+// ZZVerifC11Reclose: "closing twice is refused loudly rather than repeating
+// the events" also when the second Close arrives while the first is still
+// running - from a listener of one of its own close events: the inner call
+// panics (it neither blocks for ever nor runs the events again), the outer
+// Close completes the protocol once; a Close after that is refused too.
+func ZZVerifC11Reclose() {
+	log := &zzLog{}
+	root := New(Params{Name: "root"})
+	var scp app.Scope = root
+	who := "root"
+	if nd.Bool("on-child") {
+		scp = NewChild(root, ChildParams{Name: "child"})
+		who = "child"
+	}
+	zzListen(scp, who, log, "", -1)
+	at := []int{app.BeforeCloseEvent, app.CommitEvent, app.AfterCommitEvent, app.AfterCloseEvent}[nd.Choose("reclose-at", 4)]
+	refused := false
+	target := scp
+	scp.On(at, func(data interface{}) error {
+		if s, ok := data.(app.Scope); !ok || s != target {
+			return nil
+		}
+		defer func() {
+			if recover() != nil {
+				refused = true
+			}
+		}()
+		target.Close()
+		return nil
+	})
+	nd.Assert(scp.Close() == nil, "C11/reclose/outer-close-ok")
+	nd.Assert(refused, "C11/reclose/inner-close-refused-loudly")
+	zzCheckProtocol(log, who, "C11/reclose")
+	again := false
+	func() {
+		defer func() {
+			if recover() != nil {
+				again = true
+			}
+		}()
+		scp.Close()
+	}()
+	nd.Assert(again, "C11/reclose/later-close-refused-loudly")
+	zzCheckProtocol(log, who, "C11/reclose-after")
+	nd.Reach("C11/reclose/end")
+}
